@@ -6,7 +6,9 @@ Local Open Scope N_scope.
    choice of blanks, trailing comments and empty lines), the bytes asm.Parse wrote to its
    writer, and how it ended (Ok tt | Err EGen | Panic 0). *)
 Inductive acase : Type :=
-| ACase (src : list line) (written : bytes) (o : res unit).
+| ACase (src : list line) (written : bytes) (o : res unit)
+(* the shipped dev/asm command run on a file holding the same text: standard output, exit status *)
+| ACmd (src : list line) (out : bytes) (exit : N).
 
 Definition unit_eqb (_ _ : unit) : bool := true.
 
@@ -17,6 +19,10 @@ Definition asm_corr_ok (c : acase) : bool :=
   | ACase src w o =>
     let (mw, mo) := asm_run src in
     outcome_eqb unit_eqb mo o && bytes_eqb mw w
+  | ACmd src out ex =>
+    (* dev/asm/main.go: asm.Parse writes to standard output; error => exit 1, panic => exit 2 *)
+    let (mw, mo) := asm_run src in
+    bytes_eqb mw out && (ex =? match mo with Ok _ => 0 | Err _ => 1 | Panic _ => 2 end)
   end.
 
 (* C16 on the implementation's observed behaviour: a valid source that was assembled must
@@ -31,12 +37,14 @@ Definition c16_ok (c : acase) : bool :=
       | _ => true
       end
     else true
+  | ACmd src out ex =>
+    if valid_srcb src && (ex =? 0) then outcome_eqb (list_eqb instr_eqb) (parse_all out) (Ok (expand src)) else true
   end.
 
 (* class of a failing case: the first listed finding whose guard the source satisfies *)
 Definition c16_class (c : acase) : N :=
   match c with
-  | ACase src _ _ =>
+  | ACase src _ _ | ACmd src _ _ =>
     if in_K_numnorm src then 1
     else if in_K_digitprefix src then 2
     else if in_K_longsym src then 3
